@@ -8,6 +8,7 @@
            key, firstn / skipn splices, the reference stable sort of Spec/Ordered.v) and NOT by
            transcription of the Rust methods (that is Model/Edit.v):
              insert   an existing key keeps its position and gets the new value, a new key goes last
+                      (a key that only holds an `Item::None` placeholder counts as new)
              remove   the other entries keep their order
              push / insert / replace / remove on arrays and arrays of tables: the Vec laws
              sort     stable sort by key (dotted sub-tables are part of the syntactic table: sorted too)
@@ -117,7 +118,7 @@ Definition pos (k : bytes) (l : entries) : option nat := pos_from 0 k l.
 Definition e_get (k : bytes) (l : entries) : option plain :=
   match pos k l with Some i => optmap snd (nth_error l i) | None => None end.
 (* an existing key keeps its position (and spelling); a new key goes last *)
-Definition e_put (k : bytes) (x : plain) (l : entries) : entries :=
+Definition e_put0 (k : bytes) (x : plain) (l : entries) : entries :=
   match pos k l with
   | Some i => firstn i l ++ map (fun kv => (fst kv, x)) (firstn 1 (skipn i l)) ++ skipn (S i) l
   | None => l ++ [(k, x)]
@@ -128,6 +129,11 @@ Definition e_del (k : bytes) (l : entries) : entries :=
   | Some i => firstn i l ++ skipn (S i) l
   | None => l
   end.
+(* a key whose item is a placeholder is absent: the write and entry paths forget it first
+   (never the case on a document reached from a parsed one) *)
+Definition e_forget (k : bytes) (l : entries) : entries :=
+  match e_get k l with Some PNone => e_del k l | _ => l end.
+Definition e_put (k : bytes) (x : plain) (l : entries) : entries := e_put0 k x (e_forget k l).
 (* change the value stored under k *)
 Definition e_upd (k : bytes) (g : plain -> plain) (l : entries) : entries :=
   match pos k l with
@@ -207,7 +213,7 @@ Fixpoint spec_iset (ks : list bytes) (x : plain) (t : plain) : plain :=
   | k :: ks' =>
     match t with
     | PTab il d l =>
-      PTab il d (e_put k (spec_iset ks' x (match e_get k l with Some c => c | None => PNone end)) l)
+      PTab il d (e_put k (spec_iset ks' x (match e_get k (e_forget k l) with Some c => c | None => PNone end)) l)
     | PNone => PTab true false [(k, spec_iset ks' x PNone)]
     | _ => t
     end
